@@ -15,14 +15,14 @@ WRAPPERS = [("f'", "'"), ("f'''", "'''"), ("rf'", "'"), ('F"', '"')]
 EXPRS = ['a', 'a.b', 'a[0]', 'a["k"]', 'a[1:2]', 'a == b', 'a != b', 'a < b', '(a := 1)', '(lambda: 1)', '(lambda x: x)(1)', '{1: 2}[1]', '{1, 2}', '[x for x in a]', 'a if b else c',
          '"s"', '"""t"""', 'not a', '-a', 'a or b', 'f(a, b=1)', '(a, b)', 'a,', '*a, b', 'yield', 'await a', '3.', '1_0', "b'x'", 'a is not b', 'a  ', '  a', '(a)', '((a))', 'é', '名[é]']
 CONVS = ['', '!r', '!s', '!a', ' !r', '!r ']
-SPECS = ['', ':', ':x', ':>10', ':{w}', ':{w}.{p}', ':>{w}x', ':{w!r}', ':{w:{p}}', ':é', ': ', ':}}', ':{{', ':\\n', ':\\x41', ':!r', '::', ':=']
+SPECS = ['', ':', ':x', ':>10', ':{w}', ':{w}.{p}', ':>{w}x', ':{w!r}', ':{w:{p}}', ':é', ': ', ':}}', ':{{', ':\\n', ':\\x41', ':!r', '::', ':=', ':{{1:2}[1]}', ':{ {1:2}[1]}', ':{w}.{{2}.pop()}f', ':{{{w}}}']
 EQS = ['', '=', ' = ', '= ', ' =']
 PIECES = [('', ''), ('x', 'y'), ('{{', '}}'), ('\\n', '\\t'), ('é', '名'), ('\\101', '\\0'), ('\\N{DASH}\\u00e9', '\\33[0m')]
 
 
 def field_product(tier):
     exprs = EXPRS if tier == 'thorough' else EXPRS[:20]
-    for e, c, s, q, (l, r) in itertools.product(exprs, CONVS, SPECS, EQS, PIECES if tier == 'thorough' else PIECES[:3]):
+    for e, c, s, q, (l, r) in itertools.product(exprs, CONVS, SPECS, EQS, PIECES):
         body = '%s{%s%s%s%s}%s' % (l, e, q, c, s, r)
         yield "f'%s'" % body
         if tier == 'thorough' or (c in ('', '!r') and q in ('', '=')):
